@@ -27,6 +27,7 @@ import (
 //	                    after the same error-response test
 //	R-result-presence   clients decide on the presence of "result", not on its value being non-nil
 //	R-cap-guards / R-cap-wired  (shared with C16) capabilities are computed alike for every server
+//	R-queue-answered    (shared with C03) a transport that queues its answers cannot skip one
 func init() { Registry["C14"] = checkC14 }
 
 var commonMethods = []string{"initialize", "ping", "tools/list", "tools/call", "prompts/list", "prompts/get", "resources/list", "resources/read"}
@@ -303,6 +304,7 @@ func checkC14(c *Ctx) {
 	// the handshake answer: capabilities are computed alike for every transport's server
 	c16Caps(c)
 	c14ResultPresence(c)
+	c03QueueAnswered(c) // a transport that queues its answers must not be able to skip one: the others answer every request
 }
 
 func fnameOrNil(f *ssa.Function) string {
